@@ -58,6 +58,17 @@ class Obj:
         return "Obj(%s,%r)" % (self.cls, self.attrs)
 
 
+class OpaqueFloat:
+    """Float whose value is abstracted away (float mode 'opaque', used for shape-only contracts): arithmetic on it
+    gives an opaque float again, comparisons are non-deterministic."""
+
+    def __repr__(self):
+        return "<float?>"
+
+
+OPQ = OpaqueFloat()
+
+
 class Opaque:
     """Value whose content is dropped by the extraction (exception message text)."""
 
